@@ -500,6 +500,11 @@ func c01Run(c *Ctx, i int, cs *c01Case) {
 	if panicked {
 		return
 	}
+	if where := sliceBeyondCap(sd.Elem(), 0); where != "" {
+		// whatever the document: a slice header whose length exceeds its capacity means the decoder
+		// wrote past the memory it allocated
+		c.Violate(i, "Unmarshal/"+cs.cfg.name, "decoded value holds a slice whose length exceeds its capacity (write beyond the allocation)", map[string]interface{}{"type": trunc(gen.Describe(cs.t), 300), "doc": q(cs.doc), "where": where})
+	}
 	var jerr error
 	func() {
 		defer func() {
@@ -586,4 +591,49 @@ func c01Run(c *Ctx, i int, cs *c01Case) {
 	default:
 		c.Count("both_error", 1)
 	}
+}
+
+// sliceBeyondCap looks for a slice with len > cap anywhere in v.
+func sliceBeyondCap(v reflect.Value, depth int) string {
+	if depth > 12 || !v.IsValid() {
+		return ""
+	}
+	switch v.Kind() {
+	case reflect.Slice:
+		if v.Len() > v.Cap() {
+			return fmt.Sprintf("%s len=%d cap=%d", v.Type(), v.Len(), v.Cap())
+		}
+		if k := v.Type().Elem().Kind(); k == reflect.Uint8 || k == reflect.Int8 {
+			return ""
+		}
+		for j := 0; j < v.Len() && j < 50; j++ {
+			if w := sliceBeyondCap(v.Index(j), depth+1); w != "" {
+				return w
+			}
+		}
+	case reflect.Array:
+		for j := 0; j < v.Len() && j < 50; j++ {
+			if w := sliceBeyondCap(v.Index(j), depth+1); w != "" {
+				return w
+			}
+		}
+	case reflect.Ptr, reflect.Interface:
+		if !v.IsNil() {
+			return sliceBeyondCap(v.Elem(), depth+1)
+		}
+	case reflect.Struct:
+		for j := 0; j < v.NumField(); j++ {
+			if w := sliceBeyondCap(v.Field(j), depth+1); w != "" {
+				return w
+			}
+		}
+	case reflect.Map:
+		it := v.MapRange()
+		for n := 0; it.Next() && n < 50; n++ {
+			if w := sliceBeyondCap(it.Value(), depth+1); w != "" {
+				return w
+			}
+		}
+	}
+	return ""
 }
